@@ -247,7 +247,7 @@ func runC20(c *sim.Ctx) {
 func init() {
 	sim.Register(&sim.Prop{
 		ID: "C20", Engine: "E-WORLD+E-RACE", Level: "exploration", Fn: runC20, NewEnv: NewEnv,
-		Runs: map[string]int{"quick": 480, "thorough": 12000},
+		Runs: map[string]int{"quick": 800, "thorough": 12000},
 		Rule: "per run: 1-2 databases from the workload generator; 2-6 goroutines, each opening its own handles on one of the files and running 1-4 operations drawn from the whole read family (plus sql.Parse and db.Equals, which touch package-level state); two runs in three are lock-step: every goroutine parks at every pager event and callback invocation and the seeded scheduler releases one goroutine at a time in bursts of 1-8 events; one run in three is free-running (real parallelism, 3 repetitions, plus a database/sql pool with 4 concurrent queries); every operation's result (rows, names, schema, error) must equal its result when run alone; the whole check is built with -race: a data race report terminates the worker and is reported as a violation; evaluations = operations compared; distinct = distinct event logs",
 		Real: append([]string{"unix file pager on real files, page cache mutex, package-level collation table and parser tables, database/sql pool; Go race detector"}, realAll...),
 		Stub: []string{"none"},
